@@ -42,6 +42,7 @@ OBLIGATIONS = [
     "C01_built_graph_wf", "C01_accepted_defs_have_wf_graph", "C01_never_stale_built", "C01_never_stale_full_reverts_built",
     "C01_never_stale_full_reverts_nomix", "C01_scratch_is_by_name", "C01_read_by_name_built",
     "C01_read_by_name_full_reverts_built", "C01_never_stale_opkinds_built", "C01_compose_examples",
+    "C01_reads_are_C07_eval", "C01_reads_row_local", "C01_reads_eval_example",
 ]
 
 # The model variant the theorems of Props/C01.v are about (State/StateNow.v): True = State.__setitem__ as it is since 27ac519
